@@ -187,7 +187,11 @@ def body(ch, ctx):
         got = db.region(region=lim_t, completely_within=cw, strand=strand, featuretype=ft)
         exp = brute(feats, S1, s, e, cw, strand, ft)
     elif form == "string":
-        got = db.region(region=lim_s, completely_within=cw, strand=strand, featuretype=ft)
+        if strand is not None and cw:
+            # the strand written into the string itself: 'seqid:start-end:strand'
+            got = db.region(region="%s:%s" % (lim_s, strand), completely_within=cw, featuretype=ft)
+        else:
+            got = db.region(region=lim_s, completely_within=cw, strand=strand, featuretype=ft)
         exp = brute(feats, S1, s, e, cw, strand, ft)
     elif form == "Feature":
         qs = "." if strand == "." else "-"
